@@ -133,6 +133,9 @@ func c03History(r *rand.Rand, ln, rep, steps int) []Ev {
 				// a source whose content (flags byte and fields) is one byte more than, exactly, or one byte less than the room the
 				// destination had at the start of the history: fields only - a clock reference last, or private data behind it
 				t := ln + []int{1, 0, -1, 1}[r.Intn(4)]
+				if t > 183 {
+					t = 183 // (a field of 183 bytes holds no more than that)
+				}
 				a := absAF{Len: 183}
 				switch {
 				case t >= 15 && r.Intn(2) == 0:
